@@ -170,6 +170,13 @@ func c05Make(c *core.Ctx, r *gen.Rand, maxVal int) []byte {
 
 		return nil
 	}
+	if r.Chance(1, 4) {
+		// fields assigned but not written out: the setter fingerprints the bytes that are there and leaves the rest alone
+		m.TransactionID = r.TID()
+		if r.Bool() {
+			m.Type = stun.NewType(stun.Method(r.Intn(0x1000)), stun.MessageClass(r.Intn(4)))
+		}
+	}
 	pre := append([]byte(nil), m.Raw...)
 	l := len(pre) - 20 + 8
 	pre[2], pre[3] = byte(l>>8), byte(l)
@@ -265,10 +272,40 @@ func c05(c *core.Ctx) {
 		if c.WantSample() && len(wire) < 80 {
 			c.Sample(map[string]interface{}{"section": "bitflips", "fingerprinted_hex": core.Hex(wire), "flips": len(wire) * 8})
 		}
+		// one receiver carried through all the corrupted copies, decoding in place from buffers of one and the same
+		// capacity (a receive loop), and - every eighth flip - re-decoding the very bytes it holds after they were damaged
+		recv := new(stun.Message)
+		recv.Raw = append(make([]byte, 0, len(wire)+16), wire...)
+		_ = recv.Decode()
 		for bit := 0; bit < len(wire)*8; bit++ {
 			f := append([]byte(nil), wire...)
 			f[bit/8] ^= 1 << uint(bit%8)
 			c05Judge(c, f, "bitflip", true)
+			rm, _ := ref.Parse(f)
+			if rm == nil {
+				continue
+			}
+			want, _, _ := c05Oracle(f, rm)
+			if bit%8 == 3 {
+				recv.Raw = append(recv.Raw[:0], wire...)
+				_ = recv.Decode()
+				recv.Raw[bit/8] ^= 1 << uint(bit%8) // damaged where it lies
+				if err := stun.Decode(recv.Raw, recv); err != nil {
+					continue
+				}
+			} else {
+				recv.Raw = append(make([]byte, 0, len(wire)+16), f...)
+				if err := recv.Decode(); err != nil {
+					continue
+				}
+			}
+			if (stun.Fingerprint.Check(recv) == nil) != want {
+				c.Violate("check-verdict", "check-verdict:bitflip-on-a-carried-receiver", map[string]interface{}{
+					"problem": "a receiver that had decoded the intact message decodes the corrupted copy; the verdict differs from the one for these bytes", "bit": bit,
+					"re_decoded_its_own_damaged_bytes": bit%8 == 3, "input_hex": core.Hex(f), "oracle_pass": want})
+
+				return
+			}
 		}
 	})
 	// (a3) the message the setter was applied to, corrupted in place (no re-decode), for buffers with 0..13 spare bytes;
